@@ -1,0 +1,316 @@
+//go:build verif
+// +build verif
+
+// Contracts for the hint buffer, hint merge order and the collision table (C13, C14).
+
+package store
+
+// ---------- C14: orders ----------
+
+// (key hash, key) ascending, lexicographic
+func specItemLess(h1 uint64, k1 string, h2 uint64, k2 string) bool {
+	return h1 < h2 || (h1 == h2 && k1 < k2)
+}
+
+// (key hash, key, position) ascending, lexicographic; position order is (chunk, offset)
+func specMergeLess(h1 uint64, k1 string, c1 int, o1 uint32, h2 uint64, k2 string, c2 int, o2 uint32) bool {
+	return h1 < h2 || (h1 == h2 && (k1 < k2 || (k1 == k2 && specPosLess(c1, o1, c2, o2))))
+}
+
+//@ func (by byKeyHash) Less
+//@   props C14
+//@   ints bv
+//@   requires 0 <= i && i < len(by.idx) && 0 <= j && j < len(by.idx)
+//@   requires 0 <= by.idx[i] && by.idx[i] < len(by.data) && 0 <= by.idx[j] && by.idx[j] < len(by.data)
+//@   requires by.data[by.idx[i]] != nil && by.data[by.idx[j]] != nil
+//@   ensures result0 == specItemLess(by.data[by.idx[i]].Keyhash, by.data[by.idx[i]].Key, by.data[by.idx[j]].Keyhash, by.data[by.idx[j]].Key)
+
+//@ func (h mergeHeap) Less
+//@   props C14
+//@   ints bv
+//@   requires 0 <= i && i < len(h) && 0 <= j && j < len(h)
+//@   requires h[i] != nil && h[j] != nil && h[i].curr != nil && h[j].curr != nil
+//@   requires 0 <= h[i].curr.Pos.ChunkID && h[i].curr.Pos.ChunkID < 1<<31 && 0 <= h[j].curr.Pos.ChunkID && h[j].curr.Pos.ChunkID < 1<<31
+//@   ensures result0 == specMergeLess(h[i].curr.Keyhash, h[i].curr.Key, h[i].curr.Pos.ChunkID, h[i].curr.Pos.Offset, h[j].curr.Keyhash, h[j].curr.Key, h[j].curr.Pos.ChunkID, h[j].curr.Pos.Offset)
+
+// ---------- typed quantifiers / reference identity (recognised by the translator) ----------
+
+func forallU64(p func(k uint64) bool) bool                { return true }
+func forallStr(p func(k string) bool) bool                { return true }
+func forallU64Str(p func(h uint64, k string) bool) bool   { return true }
+func forallU64U64(p func(h1 uint64, h2 uint64) bool) bool { return true }
+
+// allocated(p): p is nil or an object that exists in the current state
+
+func forallItem(p func(x *HintItem) bool) bool { return true }
+
+// sameSlice(a, b): identical slice headers (recognised by the translator)
+
+// identity of two references (maps cannot be compared with == in Go)
+
+// ---------- C13/C14: collision table ----------
+
+// some key with this hash has an entry in the table
+func specCTHasHash(t *CollisionTable, kh uint64) bool {
+	_, ok := t.Items[kh]
+	return ok
+}
+
+// (keyhash, key) has an entry in the table
+func specCTHas(t *CollisionTable, kh uint64, key string) bool {
+	m, ok := t.Items[kh]
+	if !ok {
+		return false
+	}
+	_, ok2 := m[key]
+	return ok2
+}
+
+// representation invariant: the outer map exists, every hash has its own non-nil inner map
+func ctWF(t *CollisionTable) bool {
+	return t.Items != nil &&
+		forallU64(func(h uint64) bool { return !specCTHasHash(t, h) || t.Items[h] != nil }) &&
+		forallU64U64(func(h1 uint64, h2 uint64) bool {
+			return !(specCTHasHash(t, h1) && specCTHasHash(t, h2) && h1 != h2) || !specSameRef(t.Items[h1], t.Items[h2])
+		})
+}
+
+// every stored position carries a real chunk id (so that CmpKey orders positions)
+func ctPosOK(t *CollisionTable) bool {
+	return forallU64Str(func(h uint64, k string) bool {
+		return !specCTHas(t, h, k) || (0 <= t.Items[h][k].Pos.ChunkID && t.Items[h][k].Pos.ChunkID < 1<<31)
+	})
+}
+
+//@ func (table *CollisionTable) get
+//@   props C13 C14
+//@   ints bv
+//@   ensures ok == specCTHasHash(table, keyhash)   // ok: the hash is a known collision (some key with it has an entry)
+//@   ensures (item != nil) == specCTHas(table, keyhash, key)
+//@   ensures item != nil ==> fresh(item) && *item == table.Items[keyhash][key]
+
+// the new item replaces the stored one for the same (hash, key): always if there is none, if GC
+// relocates the record, or if its position is not smaller ("the newest position wins")
+func specCTWins(had bool, reason string, c int, o uint32, c0 int, o0 uint32) bool {
+	return !had || reason == "gc" || !specPosLess(c, o, c0, o0)
+}
+
+//@ func (table *CollisionTable) compareAndSet
+//@   props C13 C14
+//@   ints bv
+//@   requires it != nil && ctWF(table)
+//@   requires forallU64(func(h uint64) bool { return allocated(table.Items[h]) })   // modelling: the stored inner maps exist (the engine assumes it only for non-quantified reads)
+//@   requires 0 <= it.Pos.ChunkID && it.Pos.ChunkID < 1<<31
+//@   requires ctPosOK(table)
+//@   modifies elems(table.Items), elems(table.Items[it.Keyhash])
+//@   ensures ctWF(table) && ctPosOK(table)
+//@   ensures forallU64(func(h uint64) bool { return allocated(table.Items[h]) })
+//@   ensures specCTHas(table, it.Keyhash, it.Key)
+//@   ensures specCTWins(old(specCTHas(table, it.Keyhash, it.Key)), reason, it.Pos.ChunkID, it.Pos.Offset, old(table.Items[it.Keyhash][it.Key].Pos.ChunkID), old(table.Items[it.Keyhash][it.Key].Pos.Offset)) ==> table.Items[it.Keyhash][it.Key] == *it
+//@   ensures !specCTWins(old(specCTHas(table, it.Keyhash, it.Key)), reason, it.Pos.ChunkID, it.Pos.Offset, old(table.Items[it.Keyhash][it.Key].Pos.ChunkID), old(table.Items[it.Keyhash][it.Key].Pos.Offset)) ==> table.Items[it.Keyhash][it.Key] == old(table.Items[it.Keyhash][it.Key])
+//@   ensures forallU64Str(func(h uint64, k string) bool { return (h != it.Keyhash || k != it.Key) ==> specCTHas(table, h, k) == old(specCTHas(table, h, k)) })
+//@   ensures forallU64Str(func(h uint64, k string) bool { return (h != it.Keyhash || k != it.Key) && old(specCTHas(table, h, k)) ==> table.Items[h][k] == old(table.Items[h][k]) })
+
+// ---------- C13/C14: hint buffer ----------
+//
+// Abstract view of a HintBuffer: the items in slots 0..num-1, at most one per (key hash, key).
+// index / collisions are only an index into the slots.
+
+func hbHasIdx(h *HintBuffer, kh uint64) bool {
+	_, ok := h.index[kh]
+	return ok
+}
+
+func hbHasColl(h *HintBuffer, kh uint64) bool {
+	_, ok := h.collisions[kh]
+	return ok
+}
+
+func hbHasCollKey(h *HintBuffer, kh uint64, key string) bool {
+	m, ok := h.collisions[kh]
+	if !ok {
+		return false
+	}
+	_, ok2 := m[key]
+	return ok2
+}
+
+// the item is the one for (kh, key)
+func hbIs(p *HintItem, kh uint64, key string) bool { return p.Keyhash == kh && p.Key == key }
+
+// representation invariant
+func hbWF(h *HintBuffer) bool {
+	return h.index != nil && h.collisions != nil && 0 <= h.num && h.num <= len(h.items) &&
+		// used slots hold items
+		forall(0, h.num, func(i int) bool { return h.items[i] != nil && 0 <= h.items[i].Keyhash && h.items[i].Keyhash <= 1<<64-1 }) && // (the range is a tautology in Go; "ints math" does not know it for reads under a quantifier)
+		// every index entry points to a used slot holding an item with that hash
+		forallU64(func(kh uint64) bool {
+			return !hbHasIdx(h, kh) || (0 <= h.index[kh] && h.index[kh] < h.num && h.items[h.index[kh]].Keyhash == kh)
+		}) &&
+		// every collision entry points to the used slot holding the item with that (hash, key)
+		forallU64Str(func(kh uint64, k string) bool {
+			return !hbHasCollKey(h, kh, k) || (0 <= h.collisions[kh][k] && h.collisions[kh][k] < h.num && hbIs(h.items[h.collisions[kh][k]], kh, k))
+		}) &&
+		// every hash has its own non-nil chain map, and only hashes present in index have one
+		forallU64(func(kh uint64) bool { return !hbHasColl(h, kh) || (h.collisions[kh] != nil && hbHasIdx(h, kh)) }) &&
+		forallU64U64(func(h1 uint64, h2 uint64) bool {
+			return !(hbHasColl(h, h1) && hbHasColl(h, h2) && h1 != h2) || !specSameRef(h.collisions[h1], h.collisions[h2])
+		}) &&
+		// every used slot is reachable: through the chain map of its hash if there is one
+		// (which then lists all keys of that hash), else directly through index
+		forall(0, h.num, func(i int) bool {
+			return hbHasIdx(h, h.items[i].Keyhash) &&
+				(!hbHasColl(h, h.items[i].Keyhash) || (hbHasCollKey(h, h.items[i].Keyhash, h.items[i].Key) && h.collisions[h.items[i].Keyhash][h.items[i].Key] == i)) &&
+				(hbHasColl(h, h.items[i].Keyhash) || h.index[h.items[i].Keyhash] == i)
+		})
+}
+
+// the lookup function of the buffer: the item Get returns for (kh, key). Its meaning in terms of
+// the abstract view (the slots) is what the slot clauses of Get's contract prove about it.
+func hbGet(h *HintBuffer, kh uint64, key string) *HintItem {
+	idx, found := h.index[kh]
+	if !found {
+		return nil
+	}
+	if h.items[idx].Key == key {
+		return h.items[idx]
+	}
+	if !hbHasCollKey(h, kh, key) {
+		return nil
+	}
+	return h.items[h.collisions[kh][key]]
+}
+
+//@ func (h *HintBuffer) SetMaxOffset
+//@   props C14
+//@   ints math
+//@   modifies h.maxoffset
+//@   ensures h.maxoffset == offset
+
+//@ func (h *HintBuffer) Get
+//@   props C13 C14
+//@   ints math
+//@   requires hbWF(h)
+//@   ensures it == hbGet(h, keyhash, key)
+//@   ensures it != nil ==> hbIs(it, keyhash, key) && exists(0, h.num, func(i int) bool { return h.items[i] == it })
+//@   ensures it == nil ==> forall(0, h.num, func(i int) bool { return !hbIs(h.items[i], keyhash, key) })
+//@   ensures forall(0, h.num, func(i int) bool { return hbIs(h.items[i], keyhash, key) ==> h.items[i] == it })   // at most one slot per (hash, key)
+
+//@ func (h *HintBuffer) Set
+//@   props C13 C14
+//@   ints math
+//@   requires hbWF(h) && it != nil && Conf != nil && 0 <= Conf.SplitCap
+//@   requires uint64(it.Pos.Offset)+uint64(recSize) < 1<<32
+//@   requires forallU64(func(k uint64) bool { return allocated(h.collisions[k]) })            // modelling: the stored chain maps exist (the engine assumes it only for non-quantified reads)
+//@   requires forallU64(func(k uint64) bool { return hbHasIdx(h, k) ==> len(h.index) > 0 })   // Go semantics of len(map), not known to the engine
+//@   modifies h.maxoffset, h.items, elems(h.items), h.num, elems(h.index), elems(h.collisions), elems(h.collisions[it.Keyhash])
+//@   ensures hbWF(h)
+//@   ensures result0 ==> hbGet(h, it.Keyhash, it.Key) == it      // the key reads back its new item
+//@   ensures forallU64Str(func(kh uint64, k string) bool { return (kh != it.Keyhash || k != it.Key || !result0) ==> hbGet(h, kh, k) == old(hbGet(h, kh, k)) })   // every other pair (also a different key with the same hash) reads back as before; a refused Set changes nothing
+//@   ensures result0 ==> forall(0, old(h.num), func(i int) bool { return old(hbIs(h.items[i], it.Keyhash, it.Key)) ==> h.items[i] == it })
+//@   ensures result0 ==> forall(0, old(h.num), func(i int) bool { return !old(hbIs(h.items[i], it.Keyhash, it.Key)) ==> h.items[i] == old(h.items[i]) })
+//@   ensures result0 && old(exists(0, h.num, func(i int) bool { return hbIs(h.items[i], it.Keyhash, it.Key) })) ==> h.num == old(h.num)
+//@   ensures result0 && !old(exists(0, h.num, func(i int) bool { return hbIs(h.items[i], it.Keyhash, it.Key) })) ==> h.num == old(h.num)+1 && h.items[old(h.num)] == it
+//@   ensures !result0 ==> h.num == old(h.num) && forall(0, h.num, func(i int) bool { return h.items[i] == old(h.items[i]) })
+//@   ensures !result0 ==> !old(exists(0, h.num, func(i int) bool { return hbIs(h.items[i], it.Keyhash, it.Key) }))
+//@   ensures h.maxoffset >= old(h.maxoffset) && (result0 ==> h.maxoffset >= it.Pos.Offset+recSize)
+
+// C13 at the level of the buffer, derived from the contracts of Set and Get only.
+// (1) after a successful Set the key reads back its new item
+func lemmaHBSetGetSame(h *HintBuffer, it *HintItem, recSize uint32) bool {
+	ok := h.Set(it, recSize)
+	mine, _ := h.Get(it.Keyhash, it.Key)
+	return !ok || mine == it
+}
+
+//@ func lemmaHBSetGetSame
+//@   props C13
+//@   ints math
+//@   requires h != nil && hbWF(h) && it != nil && Conf != nil && 0 <= Conf.SplitCap
+//@   requires uint64(it.Pos.Offset)+uint64(recSize) < 1<<32
+//@   requires forallU64(func(k uint64) bool { return allocated(h.collisions[k]) })
+//@   requires forallU64(func(k uint64) bool { return hbHasIdx(h, k) ==> len(h.index) > 0 })
+//@   modifies h.maxoffset, h.items, elems(h.items), h.num, elems(h.index), elems(h.collisions), elems(h.collisions[it.Keyhash])
+//@   ensures result0
+
+// (2) any other (hash, key) pair — in particular a different key with the same hash — reads
+// back exactly what it did before, and a refused Set (buffer full) changes nothing
+func lemmaHBSetGetOther(h *HintBuffer, it *HintItem, recSize uint32, h2 uint64, k2 string) bool {
+	before, _ := h.Get(h2, k2)
+	ok := h.Set(it, recSize)
+	after, _ := h.Get(h2, k2)
+	same := h2 == it.Keyhash && k2 == it.Key
+	return (same && ok) || after == before
+}
+
+//@ func lemmaHBSetGetOther
+//@   props C13
+//@   ints math
+//@   requires h != nil && hbWF(h) && it != nil && Conf != nil && 0 <= Conf.SplitCap
+//@   requires uint64(it.Pos.Offset)+uint64(recSize) < 1<<32
+//@   requires forallU64(func(k uint64) bool { return allocated(h.collisions[k]) })
+//@   requires forallU64(func(k uint64) bool { return hbHasIdx(h, k) ==> len(h.index) > 0 })
+//@   modifies h.maxoffset, h.items, elems(h.items), h.num, elems(h.index), elems(h.collisions), elems(h.collisions[it.Keyhash])
+//@   ensures result0
+
+// ---------- C14: merge writer (groups of different keys sharing a hash) ----------
+
+// the group buffer: num entries, all with the same hash
+func mwWF(mw *mergeWriter) bool {
+	return 0 <= mw.num && mw.num <= len(mw.buf) && 1 <= len(mw.buf) &&
+		forall(0, mw.num, func(i int) bool { return mw.buf[i] != nil && mw.buf[i].Keyhash == mw.buf[0].Keyhash })
+}
+
+// the fields of x that the merge looks at
+func itemSame(x *HintItem, kh uint64, key string, chunk int, off uint32) bool {
+	return x.Keyhash == kh && x.Key == key && x.Pos.ChunkID == chunk && x.Pos.Offset == off
+}
+
+// what flush needs to know about the buffered items, and what it leaves unchanged
+func mwItemsOK(mw *mergeWriter) bool {
+	return forall(0, mw.num, func(i int) bool { return 0 <= mw.buf[i].Pos.ChunkID && mw.buf[i].Pos.ChunkID < 1<<31 })
+}
+
+//@ func (mw *mergeWriter) flush
+//@   props C14
+//@   ints bv
+//@   requires mwWF(mw) && mwItemsOK(mw) && mw.ct != nil && ctWF(mw.ct) && ctPosOK(mw.ct)
+//@   requires forallU64(func(h uint64) bool { return allocated(mw.ct.Items[h]) })
+//@   modifies *      // engine: the loop over compareAndSet havocs the map and HintItem components wholesale, a precise frame cannot be proved; the unchanged parts are restated below
+//@   ensures mw.num == old(mw.num) && sameSlice(mw.buf, old(mw.buf)) && mw.ct == old(mw.ct) && mw.w == old(mw.w)
+//@   ensures forall(0, mw.num, func(i int) bool { return mw.buf[i] == old(mw.buf[i]) && mw.buf[i].Keyhash == old(mw.buf[i].Keyhash) && mw.buf[i].Key == old(mw.buf[i].Key) })
+//@   ensures forallItem(func(x *HintItem) bool { return x != nil && old(allocated(x)) ==> itemSame(x, old(x.Keyhash), old(x.Key), old(x.Pos.ChunkID), old(x.Pos.Offset)) })   // existing items are not touched
+//@   ensures mwWF(mw) && mwItemsOK(mw) && ctWF(mw.ct) && ctPosOK(mw.ct)
+//@   ensures forallU64(func(h uint64) bool { return allocated(mw.ct.Items[h]) })
+//@   ensures mw.num > 1 ==> forall(0, mw.num, func(i int) bool { return specCTHas(mw.ct, mw.buf[i].Keyhash, mw.buf[i].Key) })   // every member of a group of >= 2 keys is reported
+//@   ensures forallU64Str(func(h uint64, k string) bool { return old(specCTHas(mw.ct, h, k)) ==> specCTHas(mw.ct, h, k) })      // nothing is ever dropped from the table
+//@   ensures mw.num <= 1 ==> forallU64Str(func(h uint64, k string) bool { return specCTHas(mw.ct, h, k) == old(specCTHas(mw.ct, h, k)) })   // a single key is not a collision
+//@   loop 1 invariant 0 <= i && i <= mw.num && mwWF(mw) && mwItemsOK(mw) && ctWF(mw.ct) && ctPosOK(mw.ct)
+//@   loop 1 invariant forallU64(func(h uint64) bool { return allocated(mw.ct.Items[h]) })
+//@   loop 1 invariant forall(0, mw.num, func(j int) bool { return mw.buf[j].Keyhash == old(mw.buf[j].Keyhash) && mw.buf[j].Key == old(mw.buf[j].Key) })
+//@   loop 1 invariant forallItem(func(x *HintItem) bool { return x != nil && old(allocated(x)) ==> itemSame(x, old(x.Keyhash), old(x.Key), old(x.Pos.ChunkID), old(x.Pos.Offset)) })
+//@   loop 1 invariant forall(0, i, func(j int) bool { return specCTHas(mw.ct, mw.buf[j].Keyhash, mw.buf[j].Key) })
+//@   loop 1 invariant forallU64Str(func(h uint64, k string) bool { return old(specCTHas(mw.ct, h, k)) ==> specCTHas(mw.ct, h, k) })
+//@   loop 2 invariant 0 <= i && i <= mw.num
+
+// write: the buffer collects the current group (one hash); within a group the latest entry of a
+// key replaces the earlier one (input arrives in (hash, key, position) order, so the latest is
+// the one with the greatest position); a new hash flushes the finished group first.
+//@ func (mw *mergeWriter) write
+//@   props C14
+//@   ints bv
+//@   requires it != nil && 0 <= it.Pos.ChunkID && it.Pos.ChunkID < 1<<31 && len(mw.buf) < 1<<40
+//@   requires allocated(mw.buf)     // modelling: the buffer's array exists (the engine does not assume it for slices read from the heap, so make() could alias it)
+//@   requires mwWF(mw) && mwItemsOK(mw) && mw.ct != nil && ctWF(mw.ct) && ctPosOK(mw.ct)
+//@   requires forallU64(func(h uint64) bool { return allocated(mw.ct.Items[h]) })
+//@   modifies *
+//@   ensures mw.ct == old(mw.ct) && mw.w == old(mw.w)
+//@   ensures mwWF(mw) && mwItemsOK(mw) && ctWF(mw.ct) && ctPosOK(mw.ct)
+//@   ensures forallU64(func(h uint64) bool { return allocated(mw.ct.Items[h]) })
+//@   ensures mw.num >= 1 && mw.buf[mw.num-1] == it
+//@   ensures old(mw.num == 0 || mw.buf[mw.num-1].Keyhash != it.Keyhash) ==> mw.num == 1        // first item, or a new group starts
+//@   ensures old(mw.num > 1 && mw.buf[mw.num-1].Keyhash != it.Keyhash) ==> forall(0, old(mw.num), func(i int) bool { return specCTHas(mw.ct, old(mw.buf[i].Keyhash), old(mw.buf[i].Key)) })   // the finished group of >= 2 keys was reported
+//@   ensures old(mw.num > 0 && mw.buf[mw.num-1].Keyhash == it.Keyhash && mw.buf[mw.num-1].Key == it.Key) ==> mw.num == old(mw.num)      // same key: the later entry replaces the earlier
+//@   ensures old(mw.num > 0 && mw.buf[mw.num-1].Keyhash == it.Keyhash && mw.buf[mw.num-1].Key != it.Key) ==> mw.num == old(mw.num)+1    // another key with the same hash joins the group
+//@   ensures old(mw.num > 0 && mw.buf[mw.num-1].Keyhash == it.Keyhash) ==> forall(0, mw.num-1, func(i int) bool { return mw.buf[i] == old(mw.buf[i]) })
+//@   ensures forallU64Str(func(h uint64, k string) bool { return old(specCTHas(mw.ct, h, k)) ==> specCTHas(mw.ct, h, k) })
